@@ -856,3 +856,56 @@ def check_push_initialises(chk, prog, unit, rule="P6"):
                    proof="plain store to the new entry's `%s`" % fld["n"])
     return n
 
+
+
+def check_counter_width(chk, units, rule="W2"):
+    """A loop `for (x = ..; x <= bound; x++)` whose bound is an 8/16-bit index must count in a wider type than the bound: the
+    tables are grown until the index reaches its type's maximum (255), and with x as narrow as the bound the test x <= 255 can
+    never fail - x wraps to 0 and the search for an unknown name never ends."""
+    n = 0
+    for u in units:
+        for f in u.functions.values():
+            if f.body is None:
+                continue
+            for lp in walk(f.body):
+                if lp.get("k") not in ("for", "while") or lp.get("cond") is None:
+                    continue
+                for cj in _conjuncts(lp["cond"]):
+                    c = X.strip(cj)
+                    if c is None or c.get("k") != "bin" or c.get("op") not in ("<=", ">="):
+                        continue
+                    a, b = (c["ch"][0], c["ch"][1]) if c["op"] == "<=" else (c["ch"][1], c["ch"][0])
+                    xa = X.strip(a)
+                    xb = X.strip(b)
+                    if xa is None or xb is None or xa.get("k") != "ref" or xb.get("k") not in ("ref", "member"):
+                        continue
+                    wb = xb.get("tw") or 0
+                    if not (0 < wb <= 16):
+                        continue
+                    # x must be stepped upwards by the loop
+                    stepped = False
+                    for part in ("inc", "body"):
+                        if lp.get(part) is None:
+                            continue
+                        for y in walk(lp[part]):
+                            if y.get("k") == "un" and y.get("op") == "++" and X.strip(y["ch"][0]).get("d") == xa.get("d"):
+                                stepped = True
+                            if y.get("k") == "assign" and y.get("op") == "+=" and X.strip(y["ch"][0]).get("d") == xa.get("d"):
+                                stepped = True
+                    if not stepped:
+                        continue
+                    n += 1
+                    wa = xa.get("tw") or 0
+                    chk.ob(rule, f.name, "counter-wider-than-bound:%s<=%s" % (canon(f, a)[:16], canon(f, b)[:20]), wa > wb, loc=f.loc(lp),
+                           detail="%s counts `%s` (%d bits) up to and including `%s` (%d bits): when the bound holds its maximum %d the test can "
+                                  "never fail, the counter wraps to 0 and the loop does not terminate" % (
+                                      f.name, X.render(a)[:20], wa, X.render(b)[:24], wb, (1 << wb) - 1),
+                           proof="the counter is %d bits wide, the bound %d" % (wa, wb))
+    return n
+
+
+def _conjuncts(c):
+    s = X.strip(c)
+    if s is not None and s.get("k") == "bin" and s.get("op") == "&&":
+        return _conjuncts(s["ch"][0]) + _conjuncts(s["ch"][1])
+    return [c]
